@@ -109,6 +109,22 @@ func (p *bprover) id(v ssa.Value) string {
 	if s, ok := p.ids[v]; ok {
 		return s
 	}
+	// a byte of an (immutable) string at the same index is the same value
+	// wherever it is read: go/ssa does no common-subexpression elimination
+	var sx, si ssa.Value
+	switch x := v.(type) {
+	case *ssa.Index:
+		sx, si = x.X, x.Index
+	case *ssa.Lookup:
+		sx, si = x.X, x.Index
+	}
+	if sx != nil {
+		if b, ok := sx.Type().Underlying().(*types.Basic); ok && b.Info()&types.IsString != 0 {
+			s := "strbyte(" + p.id(sx) + "," + p.id(si) + ")"
+			p.ids[v] = s
+			return s
+		}
+	}
 	p.nid++
 	n := v.Name()
 	if par, ok := v.(*ssa.Parameter); ok {
@@ -434,6 +450,28 @@ func (p *bprover) condFacts(cond ssa.Value, truth bool, at *ssa.BasicBlock) []fa
 	if !ok {
 		if u, ok := cond.(*ssa.UnOp); ok && u.Op == token.NOT {
 			return p.condFacts(u.X, !truth, at)
+		}
+		// value-context short circuit: phi[false, …, v] = (… && v), phi[true, …, v] = (… || v).
+		// The phi has the asked truth value only when control came through the
+		// edge that carries v, with v having that value; the facts of that
+		// predecessor (the earlier operands) hold as well.
+		if ph, ok := cond.(*ssa.Phi); ok && p.depth < 30 {
+			j := -1
+			for i, e := range ph.Edges {
+				if k, isC := e.(*ssa.Const); isC && k.Value != nil && (k.Value.String() == "true") == !truth {
+					continue
+				}
+				if j >= 0 {
+					return nil
+				}
+				j = i
+			}
+			if j < 0 {
+				return nil
+			}
+			pred := ph.Block().Preds[j]
+			out := append([]fact{}, p.factsAt(pred)...)
+			return append(out, p.condFacts(ph.Edges[j], truth, pred)...)
 		}
 		return nil
 	}
